@@ -2148,7 +2148,10 @@ void Node::register_peer_contact(PeerContact contact) {
 
 std::vector<ChunkStore::SnapshotEntry> Node::stored_chunks() const {
     SchedulerLock lock(scheduler_mutex_);
-    return chunk_store_.snapshot();
+    auto entries = chunk_store_.snapshot();
+    const auto now = std::chrono::steady_clock::now();
+    std::erase_if(entries, [&](const ChunkStore::SnapshotEntry& entry) { return now >= entry.expires_at; });
+    return entries;
 }
 
 std::size_t Node::connected_peer_count() const {
